@@ -221,6 +221,10 @@ def build(ctx):
         ex = Exec(m, ths, name='df_slice.' + label)
         LBl = fresh_plist('LBS', n=N) if which in ('lb', 'both') else None
         UBl = fresh_plist('UBS', n=N) if which in ('ub', 'both') else None
+        for caller_list in (D, LBl, UBl):           # lists the caller hands in: an in-place method on one of them is a frame violation
+            if caller_list is not None:
+                caller_list.f['caller'] = True
+        th.frame_replay = replay_lists(which)
         st = State()
         st.pc += [N >= 0]
         args = dict(df=D, lb=LBl if LBl is not None else NONE, ub=UBl if UBl is not None else NONE, openclose=P(OC))
